@@ -14,7 +14,7 @@ def run(pid):
     return pid, p.returncode, v, time.time() - t0
 
 def main():
-    patch = sys.argv[1]
+    patch = os.path.abspath(sys.argv[1])
     props = None
     if "--props" in sys.argv:
         props = sys.argv[sys.argv.index("--props") + 1].split(",")
